@@ -5,6 +5,7 @@ import Drivers.BankVmD
 import Drivers.ShieldD
 import Drivers.StakingD
 import Drivers.PayoutD
+import Drivers.MintD
 /-
   Chain driver: reads the trace of the real application (one JSON object per line),
   runs the model on every operation from the *observed* pre-state, compares the
@@ -991,6 +992,15 @@ partial def loop (hIn : IO.FS.Stream) (ds : DS) : IO DS := do
         let mut ds := { ds with h := J.intOf j "h" }
         for k in r.stats do ds := stat ds ("sit." ++ k)
         ds := { ds with stats := bump ds.stats "tx.payout.ok" 1 }
+        for (kind, props, name, detail) in r.findings do
+          ds ← finding ds kind props name detail
+        pure ds
+      | "mint" => do
+        -- C01/C02/C08: one call of the real mint.BeginBlocker (profile "mint")
+        let r := MintD.check j
+        let mut ds := ds
+        for k in r.stats do ds := stat ds ("sit." ++ k)
+        ds := { ds with stats := bump ds.stats "tx.mint.beginblock.ok" 1 }
         for (kind, props, name, detail) in r.findings do
           ds ← finding ds kind props name detail
         pure ds
